@@ -1,10 +1,13 @@
 #!/bin/sh
-# usage: harmless_check.sh <dir-with-h*.diff> : apply each behaviour-preserving patch to /repo, run every check, undo.
+# usage: harmless_check.sh <dir-with-h*.diff> [<worktree>] : apply each behaviour-preserving patch (to /repo, or to the given
+# scratch worktree through VERIF_REPO, with its own build and evidence directories), run every check, undo.
 # A VIOLATION (rc=1) on any of them is a false alarm; UNDECIDED (rc=2) is the price of a lost anchor.
 D=$1
-cd /repo && git diff --quiet || { echo "/repo not clean"; exit 2; }
+R=${2:-/repo}
+if [ "$R" != /repo ]; then export VERIF_REPO=$R VERIF_BUILD=/var/tmp/vk-build.$$ VERIF_EVIDENCE_DIR=/var/tmp/vk-ev.$$; fi
+git -C "$R" diff --quiet || { echo "$R not clean"; exit 2; }
 for p in "$D"/h*.diff; do
-  git -C /repo apply "$p" || { echo "$p: does not apply"; continue; }
+  git -C "$R" apply "$p" || { echo "$p: does not apply"; continue; }
   res=""
   for c in $(python3 -c "import json; print(' '.join(sorted(json.load(open('/verif/props.json')))))"); do
     (cd /verif && ./check $c --tier quick >/tmp/harmless.$$ 2>&1); rc=$?
@@ -13,7 +16,7 @@ for p in "$D"/h*.diff; do
     [ $rc -eq 2 ] && grep -E "^UNDECIDED" /tmp/harmless.$$ | head -1 | cut -c1-200 | sed "s|^|    $c: |"
   done
   echo "$(basename $p):${res:- all 0}"
-  git -C /repo checkout -- .
+  git -C "$R" checkout -- .
 done
 rm -f /tmp/harmless.$$
-git -C /verif checkout -- evidence 2>/dev/null
+if [ "$R" != /repo ]; then rm -rf /var/tmp/vk-build.$$ /var/tmp/vk-ev.$$; else git -C /verif checkout -- evidence 2>/dev/null; fi
